@@ -73,6 +73,10 @@ def run(tier, seed):
         e = str(end.get("end", ""))
         if e.startswith("ok"):
             r.cov["traces_validated_against_impl"] += 1
+        elif sc["id"].endswith("-jit") and kf("C16-jit-native-paths-block-or-lock-without-publishing"):
+            # native code does not publish at its blocking / locking paths (known finding): a stall or abort of a
+            # JIT scenario is attributed to it; the same scenario without the JIT must still finish
+            r.notes.append(f"{sc['id']}: {e} (JIT, known finding)")
         else:
             r.violation(f"{sc['id']}: evaluation did not finish normally: {e} (last events {end.get('last')})",
                         {"id": sc["id"], "trace": path, "end": end})
